@@ -105,22 +105,30 @@ theorem step1_spec {D : Dom α} (hD : DomEq D) (hm : D.mergeable = true) (exp : 
     CacheOK (step1 D exp s u).1 ∧ (step1 D exp s u).1.skip = s.skip ∧
     (((step1 D exp s u).2 = [] ∧ (step1 D exp s u).1.files = s.files) ∨
      ((step1 D exp s u).2 = [(u.node, eff D (s.files u.node) t)] ∧ (D.merge (s.files u.node) t).2 = true)) := by
-  unfold step1
   by_cases hn : needUpdate D exp s u = true
-  · simp only [hn, Bool.not_true, Bool.false_eq_true, if_false, ht, hm, if_true]
-    by_cases hmg : (D.merge (s.files u.node) t).2 = true
-    · simp only [hmg, if_true, eff]
-      refine ⟨rfl, ?_, rfl, Or.inr ⟨rfl, trivial⟩⟩
+  · by_cases hmg : (D.merge (s.files u.node) t).2 = true
+    · have e : step1 D exp s u =
+          ({ s with files := setAt s.files u.node (D.merge (s.files u.node) t).1,
+                    cache := setAt s.cache u.node (some (D.merge (s.files u.node) t).1) },
+           [(u.node, (D.merge (s.files u.node) t).1)]) := by
+        simp [step1, hn, ht, hm, hmg]
+      have e2 : eff D (s.files u.node) t = (D.merge (s.files u.node) t).1 := by simp [eff, hmg]
+      rw [e, e2]
+      refine ⟨rfl, ?_, rfl, Or.inr ⟨rfl, hmg⟩⟩
       exact cacheOK_setAt s _ _ _ hc (by intro x hx; cases hx; rfl)
     · have hmg' : (D.merge (s.files u.node) t).2 = false := by simpa using hmg
-      simp only [hmg', Bool.false_eq_true, if_false, eff]
+      have e : step1 D exp s u =
+          ({ s with cache := setAt s.cache u.node (D.readBack (s.files u.node)) }, []) := by
+        simp [step1, hn, ht, hm, hmg']
+      have e2 : eff D (s.files u.node) t = s.files u.node := by simp [eff, hmg']
+      rw [e, e2]
       refine ⟨(setAt_self _ _).symm, ?_, rfl, Or.inl ⟨rfl, rfl⟩⟩
       exact cacheOK_setCache s _ _ hc (fun x hx => hD.read_eq _ _ hx)
   · have hn' : needUpdate D exp s u = false := by simpa using hn
     have hf := needUpdate_false hD exp s u t ht hc hn'
-    simp only [hn', Bool.not_false, if_true]
-    have : eff D (s.files u.node) t = s.files u.node := by rw [hf]; exact eff_self hD t
-    rw [this]
+    have e : step1 D exp s u = (s, []) := by simp [step1, hn']
+    have e2 : eff D (s.files u.node) t = s.files u.node := by rw [hf]; exact eff_self hD t
+    rw [e, e2]
     exact ⟨(setAt_self _ _).symm, hc, rfl, Or.inl ⟨rfl, rfl⟩⟩
 
 theorem step2_spec {D : Dom α} (hD : DomEq D) (exp : Bool) (s : St α) (u : Upd α)
@@ -129,21 +137,26 @@ theorem step2_spec {D : Dom α} (hD : DomEq D) (exp : Bool) (s : St α) (u : Upd
     CacheOK (step2 D exp s u).1 ∧ (step2 D exp s u).1.skip = s.skip ∧
     (((step2 D exp s u).2 = [] ∧ (step2 D exp s u).1.files = s.files) ∨
      ((step2 D exp s u).2 = [(u.node, t)] ∧ D.same (s.files u.node) t = false)) := by
-  unfold step2
   by_cases hn : needUpdate D exp s u = true
-  · simp only [hn, Bool.not_true, Bool.false_eq_true, if_false, ht, hs, List.contains_nil]
-    by_cases hsame : D.same (s.files u.node) t = true
-    · simp only [hsame, if_true]
+  · by_cases hsame : D.same (s.files u.node) t = true
+    · have e : step2 D exp s u = ({ s with cache := setAt s.cache u.node (D.afterUpdate t) }, []) := by
+        simp [step2, hn, ht, hs, hsame]
       have hf := hD.same_eq _ _ hsame
+      rw [e]
       refine ⟨by rw [← hf]; exact (setAt_self _ _).symm, ?_, rfl, Or.inl ⟨rfl, rfl⟩⟩
       exact cacheOK_setCache s _ _ hc (fun x hx => by rw [hf]; exact hD.after_eq _ _ hx)
     · have hsame' : D.same (s.files u.node) t = false := by simpa using hsame
-      simp only [hsame', Bool.false_eq_true, if_false]
-      refine ⟨rfl, ?_, rfl, Or.inr ⟨rfl, trivial⟩⟩
+      have e : step2 D exp s u =
+          ({ s with files := setAt s.files u.node t, cache := setAt s.cache u.node (D.afterUpdate t) },
+           [(u.node, t)]) := by
+        simp [step2, hn, ht, hs, hsame']
+      rw [e]
+      refine ⟨rfl, ?_, rfl, Or.inr ⟨rfl, hsame'⟩⟩
       exact cacheOK_setAt s _ _ _ hc (fun x hx => hD.after_eq _ _ hx)
   · have hn' : needUpdate D exp s u = false := by simpa using hn
     have hf := needUpdate_false hD exp s u t ht hc hn'
-    simp only [hn', Bool.not_false, if_true]
+    have e : step2 D exp s u = (s, []) := by simp [step2, hn']
+    rw [e]
     exact ⟨by rw [← hf]; exact (setAt_self _ _).symm, hc, rfl, Or.inl ⟨rfl, rfl⟩⟩
 
 /-! ### generic sweep lemmas -/
